@@ -440,9 +440,20 @@ func VerifC03KeyShapes() {
 	// the indexes exist before the items are written, or are created over the items afterwards (back-fill: the
 	// order of the index keys is in general not the order of the primary keys)
 	late := nd.Choice("indexes-created-late", 2) == 1
+	// the order in which the two indexes were created (the engine walks a map in insertion order: either index
+	// may be the one a write visits first)
+	gxFirst := nd.Choice("sparse-index-created-first", 2) == 1
+	addBoth := func(id string) {
+		if gxFirst {
+			nd.Assert(AddIndex(vCtx, c, vTbl, "gx", "g", "") == nil, id+"-gx")
+		}
+		nd.Assert(AddIndex(vCtx, c, vTbl, "inv", "s", "p") == nil, id+"-inv")
+		if !gxFirst {
+			nd.Assert(AddIndex(vCtx, c, vTbl, "gx", "g", "") == nil, id+"-gx")
+		}
+	}
 	if !late {
-		nd.Assert(AddIndex(vCtx, c, vTbl, "inv", "s", "p") == nil, "setup-addindex-inv")
-		nd.Assert(AddIndex(vCtx, c, vTbl, "gx", "g", "") == nil, "setup-addindex-gx")
+		addBoth("setup-addindex")
 	}
 	m := &vModel{withRange: true}
 	for i := 0; i < n; i++ {
@@ -478,8 +489,7 @@ func VerifC03KeyShapes() {
 	}
 	if late {
 		nd.Reach("indexes-created-late")
-		nd.Assert(AddIndex(vCtx, c, vTbl, "inv", "s", "p") == nil, "late-addindex-inv")
-		nd.Assert(AddIndex(vCtx, c, vTbl, "gx", "g", "") == nil, "late-addindex-gx")
+		addBoth("late-addindex")
 	}
 	check := func(idx, hashAttr string, in func(r vRow) (string, bool), id string) {
 		want := 0
